@@ -184,19 +184,27 @@ def leanchecker(modules):
 
 # ---------------------------------------------------------------- differential streams
 
-def run_stream(name, gen_cmd, go_cmd, lean_cmd, workdir, timeout=3000):
-    """gen_cmd writes ops to stdout; go_cmd / lean_cmd read ops on stdin. Returns dict with paths."""
+def run_stream(name, gen_cmd, go_cmd, lean_cmd, workdir, timeout=3000, ops_lines=None, go_env=None):
+    """gen_cmd writes ops to stdout; go_cmd / lean_cmd read ops on stdin. Returns dict with paths.
+    With ops_lines the generator is skipped and exactly these lines are run (confirmation runs)."""
     os.makedirs(workdir, exist_ok=True)
     ops = os.path.join(workdir, name + ".ops")
     og = os.path.join(workdir, name + ".go.out")
     ol = os.path.join(workdir, name + ".lean.out")
-    with open(ops, "wb") as f:
-        p = subprocess.run(gen_cmd, stdout=f, stderr=subprocess.PIPE, timeout=timeout)
-        if p.returncode != 0:
-            raise RuntimeError("generator failed: %s" % p.stderr.decode()[-500:])
+    if ops_lines is not None:
+        with open(ops, "w") as f:
+            f.write("".join(l + "\n" for l in ops_lines))
+    else:
+        with open(ops, "wb") as f:
+            p = subprocess.run(gen_cmd, stdout=f, stderr=subprocess.PIPE, timeout=timeout)
+            if p.returncode != 0:
+                raise RuntimeError("generator failed: %s" % p.stderr.decode()[-500:])
     t0 = time.time()
+    env = None
+    if go_env:
+        env = dict(os.environ); env.update(go_env)
     with open(ops, "rb") as i, open(og, "wb") as o:
-        pg = subprocess.Popen(go_cmd, stdin=i, stdout=o, stderr=subprocess.PIPE)
+        pg = subprocess.Popen(go_cmd, stdin=i, stdout=o, stderr=subprocess.PIPE, env=env)
     with open(ops, "rb") as i, open(ol, "wb") as o:
         pl = subprocess.Popen(lean_cmd, stdin=i, stdout=o, stderr=subprocess.PIPE)
     eg = pg.communicate(timeout=timeout)[1]
